@@ -13,7 +13,14 @@ META = dict(
     watchdog_s={"quick": 900, "thorough": 3600},
     evaluations_counter="cases",
     min={"cases": 1000, "elements": 100_000, "idem_elements": 20_000},
-    anchors=["tensor/qweight.py:quantize_weight", "tensor/quantizers/affine.py:AffineQuantizer.forward"],
+    anchors=["tensor/qweight.py:quantize_weight",
+             "tensor/quantizers/affine.py:AffineQuantizer.forward",
+             "tensor/qbits/qbits.py:QBitsDequantizer.forward",
+             "tensor/qbits/group.py:group",
+             "tensor/qbits/group.py:ungroup",
+             "tensor/optimizers/max_optimizer.py:MaxOptimizer.optimize",
+             "tensor/qbits/packed.py:PackedTensor.pack",
+             "tensor/qbits/packed.py:PackedTensor.unpack"],
     rule="case = tensor assembled group by group from value classes {zeros, constant, one-sided +/-, offset, "
          "subnormal, tiny, mixed, single non-zero, heavy tail, ordinary} x dtype x bits x axis x group size "
          "(None + every divisor of the per-axis element count) x rank 1-4 x layout; non-trivial when the tensor has "
